@@ -3,8 +3,14 @@ package main
 
 import (
 	_ "verif/internal/c01"
+	_ "verif/internal/c05"
 	_ "verif/internal/c07"
+	_ "verif/internal/c08"
+	_ "verif/internal/c09"
 	_ "verif/internal/c12"
+	_ "verif/internal/c13"
+	_ "verif/internal/c14"
+	_ "verif/internal/c15"
 	_ "verif/internal/c16"
 	_ "verif/internal/c17"
 	_ "verif/internal/c18"
